@@ -401,6 +401,11 @@ def run(run):
     from vf.rt.pool import run_cases
 
     s_lru(run, run.tier)
+    # tier P: the cache data structure itself (LRU.__setitem__ / __getitem__ against the abstract view "keys in
+    # recency order + stored values"), and what a _BackendData ships to another process (not its cache)
+    from vf.contracts.registry import run_property_specs
+
+    run_property_specs(run, "C15")
     tmp = tempfile.mkdtemp(prefix="verif_c15_")
     try:
         pqdir = os.path.join(tmp, "pq")
